@@ -2,7 +2,9 @@
     Statements only; every proof is an [exact] of a lemma proved in Proofs/. *)
 From E57 Require Import Base.Prelude Model.Device Model.PagedReader Spec.PageReadSpec Model.Prog
   Model.Record Model.QueueReader Model.FileBin Model.ReaderOpen
-  Proofs.PagedReaderCache Proofs.ReaderProgSem Proofs.ReaderProgStrict Proofs.ReaderProgAlter Proofs.ReaderSessions.
+  Proofs.PagedReaderCache Proofs.ReaderProgSem Proofs.ReaderProgStrict Proofs.ReaderProgAlter Proofs.ReaderSessions
+  Base.Floats Model.Meta Model.SimpleIter Proofs.SimpleSessions.
+From Flocq Require Import Binary Bits.
 
 (** For ANY device contents (intact or damaged), the result of a reader
     program on the paged reader - with its page cache, in whatever state
@@ -20,7 +22,7 @@ Proof. exact rrun_g_equiv. Qed.
     same reader (complete, abandoned half-way or failed), what it returns on
     the freshly opened reader. *)
 Theorem C17_history_independent :
-  forall ps phys d1 s0 (B : Type) (q : rprog B) (A : Type) (x : N) (k : res pr_out -> rprog A),
+  forall ps phys d1 s0 (Q : Type) (q : rprog Q) (A : Type) (x : N) (k : res pr_out -> rprog A),
   pr_new ps (dev_init phys None) = (d1, Ok s0) ->
   strict (ROp (PrSeek x) k) ->
   snd (rrun (ROp (PrSeek x) k) (fst (rrun q s0))) = snd (rrun (ROp (PrSeek x) k) s0).
@@ -28,18 +30,39 @@ Proof. exact history_independent_reachable. Qed.
 
 (** Instances: a complete raw iteration of a point cloud, and a blob extraction. *)
 Theorem C17_raw_iteration :
-  forall ps phys d1 s0 (B : Type) (q : rprog B) fuel ls fo recs proto,
+  forall ps phys d1 s0 (Q : Type) (q : rprog Q) fuel ls fo recs proto,
   pr_new ps (dev_init phys None) = (d1, Ok s0) ->
   snd (rrun (op_raw_all fuel ls fo recs proto) (fst (rrun q s0))) = snd (rrun (op_raw_all fuel ls fo recs proto) s0).
 Proof. exact raw_all_history_independent. Qed.
 
 Theorem C17_blob :
-  forall ps phys d1 s0 (B : Type) (q : rprog B) ls off ln,
+  forall ps phys d1 s0 (Q : Type) (q : rprog Q) ls off ln,
   pr_new ps (dev_init phys None) = (d1, Ok s0) ->
   snd (rrun (op_blob ls off ln) (fst (rrun q s0))) = snd (rrun (op_blob ls off ln) s0).
 Proof. exact blob_history_independent. Qed.
+
+(** The simple iterator (constructor, the six option setters, iteration to the
+    end) under any option vector and any libm functions: the same. *)
+Theorem C17_simple_iteration :
+  forall fcos fsin fasin fatan2 ps phys d1 s0 (Q : Type) (q : rprog Q) fuel ls pc o,
+  pr_new ps (dev_init phys None) = (d1, Ok s0) ->
+  snd (rrun (op_simple_all fcos fsin fasin fatan2 fuel ls pc o) (fst (rrun q s0)))
+  = snd (rrun (op_simple_all fcos fsin fasin fatan2 fuel ls pc o) s0).
+Proof. exact simple_history_independent. Qed.
+
+(** ... and a simple iterator that was only partly consumed leaves no trace:
+    a raw iteration, a blob extraction or another simple iteration after it
+    return what they return on the freshly opened reader. *)
+Theorem C17_simple_partly_consumed :
+  forall fcos fsin fasin fatan2 ps phys d1 s0 (Q : Type) (q : rprog Q) n ls pc o,
+  pr_new ps (dev_init phys None) = (d1, Ok s0) ->
+  snd (rrun (op_simple_take fcos fsin fasin fatan2 n ls pc o) (fst (rrun q s0)))
+  = snd (rrun (op_simple_take fcos fsin fasin fatan2 n ls pc o) s0).
+Proof. exact simple_take_history_independent. Qed.
 
 Print Assumptions C17_result_is_function_of_offset.
 Print Assumptions C17_history_independent.
 Print Assumptions C17_raw_iteration.
 Print Assumptions C17_blob.
+Print Assumptions C17_simple_iteration.
+Print Assumptions C17_simple_partly_consumed.
